@@ -536,6 +536,12 @@ def gen_bigint(rng, n):
         ('wflip value', 'wflip 0, {N}', False), ('wflip address', 'wflip {N}, 1', False), ('wflip return', 'wflip 0, 1, {N}', False),
         ('rep times (negative)', 'def m {{\n;\n}}\n;\nrep(0-{N}, i) m', False), ('rep argument error', 'def m a {{\n;a\n}}\nrep(2, i) m {N}/i', False),
         ('macro argument of an undefined macro', 'nope {N}', False), ('recursion trace', 'def m a {{\nm a\n}}\nm {N}', False),
+        # the label table (saved to the debugging file after the .fjm is written) holds addresses of that size
+        ('empty segment there, then a label', ';\nsegment {N}\nlab:', True), ('empty segment there', ';\nsegment {N}', True),
+        ('empty segment at the negative address, then a label', ';\nsegment 0-{N}\nlab:', True),
+        ('label after a reserve of that size', ';\nreserve {N}\nlab:', True),
+        ('label after a reserve of that size, used', ';lab\nreserve {N}\nlab:', True),
+        ('label in a segment there, used', ';lab\nsegment {N}\nlab:\n;', True),
     ]
     bits = BIG_BITS + [rng.randrange(900, 45000) for _ in range(3)]
     out = []
@@ -551,7 +557,20 @@ def gen_bigint(rng, n):
             num = f'((1<<{b})-1)'
         else:
             num = hex(rng.getrandbits(b) | (1 << (b - 1)))
-        out.append(case('bigint', tpl.format(N=num) + '\n', f'{hint}, {b} bits'))
+        c = case('bigint', tpl.format(N=num) + '\n', f'{hint}, {b} bits')
+        if any(t in tpl for t in ('segment', 'reserve', ':')):
+            c['debug'] = True
+        out.append(c)
+    # the edge of the address space, with the debugging file (N7: `;` / `segment 1<<15000` / `lab:` with a debugging file
+    # wrote the .fjm, then json.dumps refused the label table)
+    for w in WIDTHS:
+        for text, hint in [(';\nsegment 1<<15000\nlab:', 'N7: empty segment at 2^15000 and a label, debugging file'),
+                           (';\nsegment 1<<w\nlab:', 'empty segment at exactly 2^w, then a label'), (';\nsegment 1<<w', 'empty segment at exactly 2^w'),
+                           (';\nsegment (1<<w)-w\nlab:', 'empty segment at 2^w - w, then a label'), (';\nsegment (1<<w)-w', 'empty segment at 2^w - w'),
+                           (';\nsegment (1<<w)-2*w\nlab:\n;', 'last op of the address space, labelled'),
+                           (';\nsegment 0-w\nlab:', 'empty segment at -w, then a label'), (';\nreserve (1<<w)-2*w\nlab:', 'label at 2^w after a reserve')]:
+            for dbg in (True, False):
+                out.append(case('bigint', text + '\n', hint + ('' if dbg else ' (no debugging file)'), w=w, debug=dbg))
     for ln in DECIMAL_LENGTHS:
         for d in ('9', '1'):
             out.append(case('bigint', ';' + d * ln + '\n', f'decimal literal of {ln} digits'))
